@@ -8,6 +8,7 @@ def run_tables(prop, config, decided, not_decided, floor_fns, floor_rows, extra=
     rep = Report(prop)
     c = K.crate("gamedig-lib", config)
     nf, nr = TS.compare(rep, c, prop, "%s:table" % prop)
+    TS.coverage(rep, c, prop, "%s:coverage" % prop)
     if extra:
         extra(rep, c, config)
     if config == "baseline":
